@@ -24,9 +24,11 @@ EXTENDS Integers, Sequences, FiniteSets, TLC
 
 CONSTANTS Files,          \* model checking: file id -> drawing ; trace validation: unused
           MaxLookups, Deviations
-VARIABLES file, cache, memo, nlook, last
-vars == <<file, cache, memo, nlook, last>>
-sv   == <<file, cache, memo, nlook>>
+VARIABLES file, cache, memo, nlook, last,
+          objs,           \* tokens of the Molecule objects handed out so far (every look-up must hand out a new one)
+          handed          \* model only: label -> the object last handed out for it, AS THE CALLER LEFT IT
+vars == <<file, cache, memo, nlook, last, objs, handed>>
+sv   == <<file, cache, memo, nlook, objs, handed>>
 
 Abs(x)   == IF x < 0 THEN -x ELSE x
 Range(s) == {s[i] : i \in DOMAIN s}
@@ -134,7 +136,14 @@ Broken(D, m, tx, out, R) ==
     ELSE (IF ResolvesStably(m, tx, R) THEN {} ELSE {"ResolvesStably"})
          \cup (IF Deterministic(m, tx, R) THEN {} ELSE {"Deterministic"})
          \cup (IF InScope(D.frags[R.fid]) THEN {c \in FragmentClauses : ~Holds(c, D.frags[R.fid], R)} ELSE {})
-Accepts(D, m, tx, out, R) == Broken(D, m, tx, out, R) = {}
+(* History independence is a statement about CONTENT: every look-up yields the drawing's content, whatever callers  *)
+(* did to the molecules handed out before.  It is covered by the clauses above, because they are demanded of every    *)
+(* look-up (also of those that follow a caller's edit).  Whether the returned object is a new one is NOT part of the  *)
+(* property (a parser may share or copy as it likes, as long as no edit ever shows): DistinctObject is only a         *)
+(* model-level fact about the reference parser (P_DistinctObject) and an informational counter in the evidence.       *)
+DistinctObject(os, R) == R.oid \notin os
+BrokenAll(D, m, os, tx, out, R) == Broken(D, m, tx, out, R)
+Accepts(D, m, os, tx, out, R) == BrokenAll(D, m, os, tx, out, R) = {}
 
 (* ---- relations between a file and a transformed copy ----------------------- *)
 Km(km, k) == IF k \in DOMAIN km THEN km[k] ELSE k
@@ -213,21 +222,50 @@ ImplResolve(D, c, tx) ==
        ELSE "none"
 
 Init == /\ file \in DOMAIN Files /\ cache = Empty /\ memo = Empty /\ nlook = 0 /\ last = [act |-> "init"]
+        /\ objs = {} /\ handed = Empty
 
+WithOid(R, o) == ("oid" :> o) @@ R
 Lookup(tx) ==
   /\ nlook < MaxLookups /\ nlook' = nlook + 1 /\ UNCHANGED file
   /\ LET D == Files[file]  f == ImplResolve(D, cache, tx) IN
      IF f = "none"
-       THEN /\ UNCHANGED <<cache, memo>> /\ last' = [act |-> "lookup", label |-> tx, out |-> "KeyError"]
-       ELSE LET R == ImplParse(D.frags[f], f)  Rm == ImplParse(MirrorF(D.frags[f]), f) IN
+       THEN /\ UNCHANGED <<cache, memo, objs, handed>> /\ last' = [act |-> "lookup", label |-> tx, out |-> "KeyError"]
+       ELSE LET fresh == WithOid(ImplParse(D.frags[f], f), nlook + 1)
+                (* deviation: the parsed Molecule is memoised per label and the very same object is handed out again *)
+                R  == IF "MemoisedMolecule" \in Deviations /\ tx \in DOMAIN handed THEN handed[tx] ELSE fresh
+                Rm == ImplParse(MirrorF(D.frags[f]), f) IN
             /\ cache' = IF tx \in DOMAIN cache THEN cache ELSE (tx :> f) @@ cache
             /\ memo' = Remember(memo, tx, R)
+            /\ objs' = objs \cup {R.oid}
+            /\ handed' = (tx :> R) @@ handed
             /\ last' = [act |-> "lookup", label |-> tx, out |-> "ok", R |-> R, Rm |-> Rm]
-(* a second CDXMLFile object on the same path: empty cache; the label must still resolve as before *)
-Reopen == /\ nlook < MaxLookups /\ DOMAIN cache # {} /\ cache' = Empty /\ UNCHANGED <<file, memo, nlook>> /\ last' = [act |-> "reopen"]
+(* the caller works on a molecule it was given (public calls: edit a formal charge, add a hydrogen, delete an atom,  *)
+(* move the coordinates).  Nothing of this may show in any later look-up.                                            *)
+Edited(R, how) ==
+  LET k0 == CHOOSE k \in DOMAIN R.atoms : \A j \in DOMAIN R.atoms : R.atoms[k].el >= R.atoms[j].el
+      at == CASE how = "charge" -> [R.atoms EXCEPT ![k0].q = @ + 1]
+              [] how = "addH"   -> ("+H" :> [el |-> 1, iso |-> 0, q |-> 0, nrad |-> 0, ap |-> FALSE]) @@ R.atoms
+              [] how = "delatom" -> [k \in DOMAIN R.atoms \ {k0} |-> R.atoms[k]]
+              [] OTHER -> R.atoms
+      bd == CASE how = "addH" -> ("+bH" :> [a |-> k0, b |-> "+H", ord |-> "Single"]) @@ R.bonds
+              [] how = "delatom" -> [bk \in {x \in DOMAIN R.bonds : k0 \notin {R.bonds[x].a, R.bonds[x].b}} |-> R.bonds[bk]]
+              [] OTHER -> R.bonds
+      q  == IF how = "charge" THEN R.charge + 1 ELSE R.charge
+      g  == IF how = "move" THEN [k \in DOMAIN R.gdig |-> 0 - R.gdig[k]] @@ ("moved" :> 1) ELSE R.gdig
+  IN [R EXCEPT !.atoms = at, !.bonds = bd, !.charge = q, !.natoms = Cardinality(DOMAIN at), !.nbonds = Cardinality(DOMAIN bd),
+               !.cdig = <<at, bd, q, R.mult>>, !.gdig = g]
+Edits == {"charge", "addH", "delatom", "move"}
+Mutate(tx, how) ==
+  /\ nlook < MaxLookups /\ nlook' = nlook + 1 /\ tx \in DOMAIN handed
+  /\ handed' = [handed EXCEPT ![tx] = Edited(@, how)]
+  /\ UNCHANGED <<file, cache, memo, objs>> /\ last' = [act |-> "mutate", label |-> tx, how |-> how]
+(* a second CDXMLFile object on the same path: empty caches; the label must still resolve as before *)
+Reopen == /\ nlook < MaxLookups /\ DOMAIN cache # {} /\ cache' = Empty /\ handed' = Empty
+          /\ UNCHANGED <<file, memo, nlook, objs>> /\ last' = [act |-> "reopen"]
 
 AnyLookup == \E tx \in LabelTexts(Files[file]) : Lookup(tx)
-Next == AnyLookup \/ Reopen
+AnyMutate == \E tx \in DOMAIN handed, how \in Edits : Mutate(tx, how)
+Next == AnyLookup \/ AnyMutate \/ Reopen
 Spec == Init /\ [][Next]_vars
 
 (* ---- every look-up of the model is one that the property accepts ----------- *)
@@ -244,5 +282,6 @@ P_BondsAsDrawn      == [][LookedOk /\ ResolvesAsDrawn(Files[file], last'.label, 
 P_ChargeMultFollow  == [][LookedOk /\ ResolvesAsDrawn(Files[file], last'.label, last'.R) => ChargeMultFollow(DF, last'.R)]_vars
 P_MirrorKeepsConstitution == [][LookedOk => SameConstitution(last'.R, last'.Rm, Empty)]_vars
 P_MirrorFlipsHandedness   == [][LookedOk => MirrorFlipsHandedness(DF, HandPairs(last'.R, last'.Rm))]_vars
-P_Accepts           == [][Looked => Accepts(Files[file], memo, last'.label, last'.out, IF last'.out = "ok" THEN last'.R ELSE last')]_vars
+P_DistinctObject    == [][LookedOk => DistinctObject(objs, last'.R)]_vars
+P_Accepts           == [][Looked => Accepts(Files[file], memo, objs, last'.label, last'.out, IF last'.out = "ok" THEN last'.R ELSE last')]_vars
 =============================================================================
